@@ -1,7 +1,7 @@
 CFG = dict(
     props_file='Props/C01.v',
     coq_targets=['Checks/C01.vo', 'Props/C01.vo'],
-    bin='groupa', bin_args=['c01'], n_quick=160, n_thorough=12000,
+    bin='groupa', bin_args=['c01'], n_quick=160, n_thorough=2400,
     level_text='C01_engine_is_perfect_model: for every program, EDB and recursion depth (fuel), if the program is aggregate-free, stratified, its '
                'derived relations have no stored facts and the engine\'s execution order respects dependencies, the engine strategy (per-head '
                'evaluation in topological order, local Kleene fixpoint for self-recursive heads) returns exactly the query relation of the '
